@@ -26,7 +26,7 @@ from rules.c15 import Runner, need, PIPE
 
 PROP = 'C17'
 U_COMMON = 'lib/upipe-framers/upipe_h26x_common.c'
-UNITS = [U_COMMON]
+UNITS = [U_COMMON, 'lib/upipe-framers/upipe_h264_framer.c', 'lib/upipe-framers/upipe_h265_framer.c', 'lib/upipe-framers/upipe_framers_common.c']
 S = ('obj', 'stream')
 
 NALU, ANNEXB, LUNK, L1, L2, L4 = 0, 1, 2, 3, 4, 5
@@ -318,6 +318,91 @@ def tsref_short(toks):
     return ''.join(('%02x' % t) if isinstance(t, int) else '.' for t in toks[:24])
 
 
+
+# ---- R-find: the start-code search of the framers, over every segmentation of the input -------------------------
+
+U_H264 = 'lib/upipe-framers/upipe_h264_framer.c'
+U_H265 = 'lib/upipe-framers/upipe_h265_framer.c'
+U_FCOMMON = 'lib/upipe-framers/upipe_framers_common.c'
+
+
+def check_find(rep, prog, tier):
+    rep.rule('R-find', 'upipe_h264f_find / upipe_h265f_find (with upipe_framers_mpeg_scan) interpreted on a ghost buffer holding a concrete Annex B stream '
+             '(3- and 4-octet start codes, at the very beginning, back to back, at the very end) cut into every segmentation of at most 3 segments (= how '
+             'the input bytes were split into buffers): successive calls report every start code once, in order, with the octet that follows it, the '
+             'position just after the NAL header, and the octet that precedes the start code (0xff when there is none) - the same for every segmentation; '
+             'no octet is read outside a mapped window')
+    streams = {
+        'mixed': [0, 0, 0, 1, 0x67, 5, 6, 0, 0, 1, 0x68, 7, 0, 0, 0, 1, 0x65, 8, 9, 10, 3, 0, 0, 1, 0x41, 2, 2],
+        'three-first': [0, 0, 1, 0x09, 0x10, 0, 0, 1, 0x67, 1, 2, 3, 4, 5, 6, 0, 0, 0, 1, 0x68, 9, 9],
+        'back-to-back': [9, 0, 0, 1, 0x0c, 0x11, 0, 0, 1, 0x0c, 0x12, 0, 0, 0, 1, 0x65, 1, 2, 3, 0, 0, 1],
+    }
+    nruns = 0
+    for uname, fname, rec, hdr in ((U_H264, 'upipe_h264f_find', 'upipe_h264f', 1), (U_H265, 'upipe_h265f_find', 'upipe_h265f', 2)):
+        u = prog.units.get(uname)
+        fn = u.funcs.get(fname) if u else None
+        if fn is None:
+            raise facts.AnalysisBroken('anchor vanished: %s' % fname)
+        scan = prog.units[U_FCOMMON].funcs.get('upipe_framers_mpeg_scan') if U_FCOMMON in prog.units else None
+        if scan is None or not scan.blocks:
+            raise facts.AnalysisBroken('anchor vanished: upipe_framers_mpeg_scan')
+        u.funcs['upipe_framers_mpeg_scan'] = scan      # external linkage: the call in the framer resolves to this definition
+        seen = set()
+        for sname, data in sorted(streams.items()):
+            N = len(data)
+            # reference: every 00 00 01 whose NAL header is complete
+            ref = []
+            i = 0
+            while i + 3 + hdr <= N:
+                if data[i] == 0 and data[i + 1] == 0 and data[i + 2] == 1:
+                    ref.append((i + 3 + hdr, data[i + 3], data[i - 1] if i >= 1 else 0xff))
+                    i += 3
+                else:
+                    i += 1
+            segl = [[N]] + [[a, N - a] for a in range(1, N)]
+            if tier != 'quick' or hdr == 1:
+                segl += [[a, b - a, N - b] for a in range(1, N) for b in range(a + 1, N) if tier != 'quick' or (b - a) <= 4]
+            for segs in segl:
+                nruns += 1
+                inst = '%s:%s,segs=%s' % (fname, sname, '+'.join(map(str, segs)))
+                what = None
+                try:
+                    m = ghost.BlockMachine(prog, u, rec, {'au_size': 0, 'scan_context': 0xffffffff}, inline=('upipe_framers_mpeg_scan',))
+                    m.max_steps = 200000
+                    ur = m.new_uref(list(data))
+                    m.bufs[m.urefs[ur[1]].ubuf].segs = list(segs) if len(segs) > 1 else None
+                    m.f['next_uref'] = ur
+                    got = []
+                    for _ in range(len(ref) + 2):
+                        env_s = {'start': None}
+                        m.cells[(id(env_s), 'start')] = env_s
+                        env_p = {'prev': 0xEE}
+                        m.cells[(id(env_p), 'prev')] = env_p
+                        m.steps = 0
+                        r = m.run(fn, [PIPE, ('addr', 'var', 'start', id(env_s)), ('addr', 'var', 'prev', id(env_p))])
+                        if not r:
+                            break
+                        got.append((m.f.get('au_size'), env_s['start'], env_p['prev']))
+                    if got != ref:
+                        k = next((j for j, (a, b) in enumerate(zip(got, ref)) if a != b), min(len(got), len(ref)))
+                        what = 'start code #%d: the search reports %s, the stream holds %s (position after the NAL header, first header octet, preceding octet)' % (
+                            k, got[k] if k < len(got) else 'nothing', ref[k] if k < len(ref) else 'nothing more')
+                except Finding as f:
+                    what = str(f)
+                except PathEnd:
+                    what = 'an assert() fails'
+                except Undecided as e:
+                    rep.add('R-find', inst, UNDECIDED, fn.loc, why=str(e))
+                    continue
+                if what:
+                    key = (fname, what.split(':')[0][:30], what[-40:])
+                    if key in seen:
+                        continue
+                    seen.add(key)
+                rep.add('R-find', inst, VIOLATED if what else HOLDS, fn.loc, **({'what': what} if what else {}))
+    rep.tables['R-find'] = {'abstract_runs': nruns}
+
+
 def run(tier='quick', repo=None):
     repo = repo or facts.REPO
     rep = Report(PROP, tier)
@@ -336,6 +421,7 @@ def run(tier='quick', repo=None):
     check_epb(rep, prog)
     check_golomb(rep, prog)
     check_convert(rep, prog)
+    check_find(rep, prog, tier)
     rep.assumptions = ['ubuf_block_stream_get delivers the octets of the buffer in order and reports the end (ghost); the bits cache and the zero-run state are the real fields',
                        'the block / uref API behaves as its ghost model (upv/ghost.py); allocation does not fail',
                        'NAL offset attributes delimit the NAL units of the input frame (what the framers produce)']
